@@ -270,7 +270,9 @@ fn serve(log: Arc<Mutex<Vec<Seen>>>, reply: impl Fn(&str, u16) -> Vec<u8> + Send
                     body = decode_chunked(&raw).map(|x| x.0).unwrap_or(raw); }
                 let line = first.trim_end().to_string();
                 s.write_all(&reply(&line, port)).ok(); s.flush().ok();
-                // anything the client sends after our reply (e.g. a TLS ClientHello after a CONNECT refusal)
+                // the reply is all this server will ever say: close the sending half so that the client sees the end of the stream now,
+                // and keep listening for anything the client sends after our reply (e.g. a TLS ClientHello after a CONNECT refusal)
+                s.shutdown(std::net::Shutdown::Write).ok();
                 let mut after = Vec::new(); let mut b = [0u8; 512];
                 s.set_read_timeout(Some(std::time::Duration::from_millis(300))).ok();
                 if let Ok(n) = r.read(&mut b) { after.extend_from_slice(&b[..n]); }
@@ -616,7 +618,8 @@ fn vp_native_connect_refusals() {
         }
     }
     // reply heads that are truncated or garbage: an error, and nothing further is sent
-    for junk in [&b""[..], b"HTTP/1.1 200", b"HTTP/1.1 200 OK\r\nX: y", b"garbage\r\n\r\n", b"HTTP/1.1 abc OK\r\n\r\n", b"\r\n\r\n"] {
+    for junk in [&b""[..], b"HTTP/1.1 200", b"HTTP/1.1 200 OK\r\n", b"HTTP/1.1 200 OK\r\nX: y", b"HTTP/1.1 200 OK\r\nX: y\r\n", b"HTTP/1.1 200 OK\r\nX: y\r\nZ: w\r\n", b"HTTP/1.1 200 OK\r\nX: y\r",
+                 b"garbage\r\n\r\n", b"HTTP/1.1 abc OK\r\n\r\n", b"\r\n\r\n"] {
         let log = Arc::new(Mutex::new(Vec::new()));
         let j = junk.to_vec();
         let proxy = serve(log.clone(), move |_, _| j.clone());
